@@ -7,6 +7,7 @@ expat + libxml2 for infosets.
 from __future__ import annotations
 
 import collections
+import contextlib
 import logging
 import re
 import time
@@ -142,6 +143,28 @@ def normalise(tree, d: GD.Dtd, ordered: bool, defaults: bool):
     return (q, tuple(sorted(a.items())), tuple(out))
 
 
+class _ListHandler(logging.Handler):
+    def __init__(self, sink: list):
+        super().__init__()
+        self.sink = sink
+
+    def emit(self, record):
+        self.sink.append(record.getMessage())
+
+
+@contextlib.contextmanager
+def captured_log():
+    """what the tree under test logs while parsing (e.g. 'Unassigned parsed object q2') is kept for the violation detail, not printed"""
+    from xsdata.logger import logger
+    sink: list = []
+    old = (logger.handlers, logger.propagate)
+    logger.handlers, logger.propagate = [_ListHandler(sink)], False
+    try:
+        yield sink
+    finally:
+        logger.handlers, logger.propagate = old
+
+
 def ns_map_of(d: GD.Dtd):
     """The prefixes the DTD spells out: DTD validity is about literal names, so the output is asked for with the same prefix."""
     if d.ns is None:
@@ -181,7 +204,7 @@ def h_faithful(ch: Chooser, vec: list, maxfeat: int, oname: str, free_instances:
             raise HarnessError(f"the minimal document of a single-feature DTD is rejected by libxml2: {why}\n{text}\n{doc}")
         return {"skip": True, "reason": "generator_rejected"}
     ctx = XmlContext()
-    with warnings.catch_warnings():
+    with warnings.catch_warnings(), captured_log() as logged:
         warnings.simplefilter("error")
         p = call(XmlParser(context=ctx, config=CG.strict_parser_config()).from_string, doc, root_cls)
     if p[0] == "exc":
@@ -206,7 +229,7 @@ def h_faithful(ch: Chooser, vec: list, maxfeat: int, oname: str, free_instances:
     if exp != act:
         kf = known_diff(exp, act, d, doc_el, oname, ordered)
         return dict(ok=False, case=case, bucket=kf or f"infoset-differs/{feats}/{oname}/" + delta(exp, act),
-                    detail=f"{text}input  {doc}\noutput {out}\nparsed {p[1]!r}")
+                    detail=f"{text}input  {doc}\noutput {out}\nparsed {p[1]!r}" + (f"\nparser log: {logged}" if logged else ""))
     if ordered:
         try:
             valid, why = GD.dtd_valid(text, out)
@@ -307,7 +330,7 @@ def _map_tree(tree, fn):
 
 
 def _repairs(d: GD.Dtd, oname: str) -> list:
-    """(bucket, function applied to both trees that erases exactly the analysed defect's effect)"""
+    """(bucket, function applied to both trees that erases exactly the analysed defect's effect, extra condition on (exp, act))"""
     out = []
     amp = {(e.name, attr_key(a)) for e in d.elems.values() for a in e.attrs if a.mode in ("FIXED", "DEFAULT") and "&" in (a.value or "")}
     if amp:
@@ -315,11 +338,17 @@ def _repairs(d: GD.Dtd, oname: str) -> list:
         def fix_amp(t):
             q, attrs, kids = t
             return (q, tuple((k, v.replace("&#38;", "&") if (local(q), k) in amp else v) for k, v in attrs), kids)
-        out.append(("KF/attribute-default-with-ampersand-keeps-char-reference", lambda t: _map_tree(t, fix_amp)))
+        out.append(("KF/attribute-default-with-ampersand-keeps-char-reference", lambda t: _map_tree(t, fix_amp), lambda e, a: "&#38;" in repr(a)))
     if d.ns is not None:
-        # the root class has Meta.target_namespace but no namespace: the root element is written unqualified
+        # the generated classes carry Meta.target_namespace / no namespace at all: elements that were read (root, wildcard children)
+        # are written unqualified
         rq = f"{{{d.namespace}}}{d.root}"
-        out.append(("KF/xmlns-namespace-not-written-for-root-element", lambda t: (d.root, t[1], t[2]) if t[0] == rq else t))
+        pre = f"{{{d.namespace}}}"
+
+        def unqualify(t):
+            q, attrs, kids = t
+            return (q[len(pre):] if q.startswith(pre) else q, attrs, kids)
+        out.append(("KF/xmlns-namespace-not-written-in-output", lambda t: _map_tree(t, unqualify), lambda e, a: e[0] == rq and a[0] == d.root))
     if oname == "compound":
         # a non-repeating choice with a sequence branch becomes one non-list compound field: only one member of the branch survives
         lost = {}
@@ -333,19 +362,21 @@ def _repairs(d: GD.Dtd, oname: str) -> list:
                 q, attrs, kids = t
                 names = lost.get(local(q), ())
                 return (q, attrs, tuple(k for k in kids if isinstance(k, str) or local(k[0]) not in names))
-            out.append(("KF/compound-field-for-choice-with-sequence-branch-keeps-one-element", lambda t: _map_tree(t, drop)))
+            def members(t):
+                return sum((1 if local(k[0]) in lost.get(local(t[0]), ()) else 0) + members(k) for k in t[2] if not isinstance(k, str))
+            out.append(("KF/compound-field-for-choice-with-sequence-branch-keeps-one-element", lambda t: _map_tree(t, drop), lambda e, a: members(a) < members(e)))
     return out
 
 
 def known_diff(exp, act, d: GD.Dtd, doc_el: I.El, oname: str, ordered: bool) -> str | None:
     reps = _repairs(d, oname)
-    for name, fn in reps:
-        if fn(exp) == fn(act):
+    for name, fn, cond in reps:
+        if cond(exp, act) and fn(exp) == fn(act):
             return name
     # a case that shows two analysed defects at once is filed under the first of them
-    for i, (name, fn) in enumerate(reps):
-        for _n2, fn2 in reps[i + 1:]:
-            if fn2(fn(exp)) == fn2(fn(act)):
+    for i, (name, fn, cond) in enumerate(reps):
+        for _n2, fn2, cond2 in reps[i + 1:]:
+            if cond(exp, act) and cond2(exp, act) and fn2(fn(exp)) == fn2(fn(act)):
                 return name
     return None
 
@@ -371,6 +402,16 @@ def delta(a, b) -> str:
     return ""
 
 
+def _task(t):
+    """one task = one (DTD, option set): the generated package is dropped (sys.modules, sys.path, scratch dir) when its documents are done"""
+    try:
+        return explore_task(t)
+    finally:
+        while _GEN:
+            _k, old = _GEN.popitem(last=False)
+            old["gen"].cleanup()
+
+
 def run(tier: str, seed: int) -> int:
     t0 = time.time()
     th = tier == "thorough"
@@ -382,17 +423,13 @@ def run(tier: str, seed: int) -> int:
     for v in vecs:
         nfeat = len([c for c in v if c])
         for on in onames:
-            if th:
-                b = inst_bound
-            else:
-                # quick: every instance within the bound for single-feature DTDs; for pairs of features the full bound under the
-                # default / compound options and the minimal + single-deviation documents under unnest
-                b = inst_bound if (nfeat <= 1 or on != "unnest") else 1
+            # quick: for pairs of features the unnest option set sees the minimal and the single-deviation documents only
+            b = inst_bound if (th or nfeat <= 1 or on != "unnest") else 1
             tasks.append(("c16.faithful", dict(vec=v, maxfeat=maxfeat, oname=on, free_instances=False), b, ()))
-    stats = parallel(tasks, explore_task, chunk=2)
-    for ent in _GEN.values():
-        ent["gen"].cleanup()
+    stats = parallel(tasks, _task, chunk=2)
     confirm_violations(stats)
+    while _GEN:
+        _GEN.popitem()[1]["gen"].cleanup()
     rejected = stats.counters.get("skip:generator_rejected", 0)
     return finish(
         PROP, tier, seed, "exploration", stats, t0,
@@ -400,6 +437,7 @@ def run(tier: str, seed: int) -> int:
               "? * + on names, optional / repeating / nested sequences and choices, choice of sequences, repeated names, recursion; CDATA / ID / IDREF(S) / NMTOKEN(S) / "
               "enumeration attributes with #REQUIRED / #IMPLIED / #FIXED / defaults (incl. values needing escaping) on root and child elements, xml:lang, "
               f"xmlns and xmlns:p #FIXED declarations on the root or on every element) x {len(onames)} generator option sets x every instance document with <= {inst_bound} "
+              + ("" if th else "(unnest on two-feature DTDs: <= 1) ") +
               "non-minimal answers (occurrence counts {min, min+1, 2}, choice branches, optional attributes, value alphabets); every instance is first validated by libxml2's DTD validator."),
         assumptions=["stand-ins for jinja2 / toposort / ruff / click (shims/, conformance-checked)",
                      "libxml2's DTD validator judges instances and re-validates ordered outputs (the output is requested with the DTD's own prefix, DTD validity being about literal names)",
